@@ -204,15 +204,15 @@ theorem prob_random_draws (c : Caps) (hreg : c.reg ≠ some .random) :
      | none => cases sup <;> simp [pickPlain]
      | some r => cases r <;> simp [pickPlain] at hreg ⊢)
 
-/-- MODE / MEDIAN / MEAN return the statistic of that name of the distribution built from the same
-parameters (MEAN: the empirical mean of `n_empirical_estimate` draws when `dist.mean` is unavailable),
-or raise NotImplementedError. -/
+/-- MODE / MEDIAN return the statistic of that name of the distribution built from the same parameters or raise
+NotImplementedError; MEAN never raises: `dist.mean`, or the empirical mean of `n_empirical_estimate` draws when
+`dist.mean` is missing *or raises NotImplementedError*. -/
 theorem prob_named_statistic (c : Caps) :
     (distSample .mode c = .mode ∨ distSample .mode c = .notImpl) ∧
     (distSample .median c = .median ∨ distSample .median c = .notImpl) ∧
-    (distSample .mean c = .mean ∨ distSample .mean c = .empMeanRsample ∨ distSample .mean c = .empMeanSample ∨
-      distSample .mean c = .notImpl) ∧
-    (c.mean = .ok → distSample .mean c = .mean) := by
+    (distSample .mean c = .mean ∨ distSample .mean c = .empMeanRsample ∨ distSample .mean c = .empMeanSample) ∧
+    (c.mean = .ok → distSample .mean c = .mean) ∧
+    (c.mean ≠ .ok → distSample .mean c = if c.rsample then .empMeanRsample else .empMeanSample) := by
   obtain ⟨ds, reg, sup, mo, me, mn, rs⟩ := c
   cases mo <;> cases me <;> cases mn <;> cases rs <;> simp [distSample, pickPlain]
 
@@ -708,15 +708,14 @@ theorem forward_tensordict_out (ms : List Mod) (arg out r : Env) (hr : run ms ar
     exact updKeys_flat out r (outKeys ms) ho hf hnd hflatK t
 
 /-- **forward_inplace_false** — `TensorDictSequential(..., inplace=False)` (or `"empty"`) on plain modules: a new
-tensordict is returned that holds exactly the advertised out_keys with the computed values; *the input object has
-been run on in place* (it holds the whole result `r`: the copy is only taken with `tensordict_out` or selected out-keys). -/
+tensordict is returned that holds exactly the advertised out_keys with the computed values, and *the input object is
+left as it was* (repaired: the modules used to run on the input itself). -/
 theorem forward_inplace_false (ms : List Mod) (ip : Inplace) (hip : ip ≠ .yes) (arg r : Env) (hr : run ms arg = some r)
     (hm : ∀ m ∈ ms, FlatKeys m.outs) (ha : FlatEnv arg) (hn : KeysNodup arg) :
-    ∃ res al, fwdNode false (.seq (plain ms) (some ip) none false) arg = .ok { arg := r, fresh := some res, aliased := al } ∧
+    ∃ res al, fwdNode false (.seq (plain ms) (some ip) none false) arg = .ok { arg := arg, fresh := some res, aliased := al } ∧
       ∀ t, Env.get? res [t] = if [t] ∈ outKeys ms ∧ (Env.get? r [t]).isSome then Env.get? r [t] else none := by
   obtain ⟨hf, hnd⟩ := run_inv ms arg r hm ha hn hr
-  have hk := fwdKids_plain ms arg
-  simp only [hr] at hk
+  have hk := fwdKids_plain_copy ms arg arg r hr
   have hkeys : dedupLast (nodesInOut (plain ms) [] []).2 = outKeys ms := by
     simp [nodesInOut_plain, outKeys]
   have hflatK : FlatKeys (outKeys ms) := by
